@@ -58,6 +58,7 @@ func runC12(seed uint64, n int, tier string, outDir string) []*Stats {
 	glueLocal(r, n/25, st)
 	glueLocalGlobal(r, n/12, st)
 
+	flushFailures(st)
 	st.Finish("seeded generator (splitmix64 from VERIF_SEED); distinct_nontrivial = distinct (family,input) pairs that exercise a non-identity path")
 	if err := os.WriteFile(filepath.Join(outDir, "c12_cases.v"), []byte(cf.String()), 0o644); err != nil {
 		panic(err)
@@ -103,7 +104,7 @@ func hexCases(r *Rng, n int, cf *CoqFile, st *Stats) {
 		items = append(items, fmt.Sprintf("(%d,%d,%d,%d)", v, css_parser.VerifCompactHex(v), w, css_parser.VerifExpandHex(w)))
 		st.Note("hexops", fmt.Sprint(v, w), true)
 		if w < 1<<16 && css_parser.VerifCompactHex(css_parser.VerifExpandHex(w)) != w {
-			st.Fail("hex-compact-roundtrip", w, css_parser.VerifCompactHex(css_parser.VerifExpandHex(w)), w)
+			failC12(st, "hex-compact-roundtrip", w, css_parser.VerifCompactHex(css_parser.VerifExpandHex(w)), w)
 		}
 	}
 	cf.AddCases("hexops_cases", "Z * Z * Z * Z", "check_hexops", items)
@@ -151,7 +152,7 @@ func hexCases(r *Rng, n int, cf *CoqFile, st *Stats) {
 		src := fmt.Sprintf("a{color:#%08x}", hex)
 		out, err := transformCSS(src, minify, true, sup)
 		if err != nil || !strings.HasPrefix(out, "a{color:") || !strings.HasSuffix(out, "}") {
-			st.Fail("hex-transform-shape", src, out, "a{color:...}")
+			failC12(st, "hex-transform-shape", src, out, "a{color:...}")
 			continue
 		}
 		val := out[len("a{color:") : len(out)-1]
@@ -159,9 +160,58 @@ func hexCases(r *Rng, n int, cf *CoqFile, st *Stats) {
 		st.Note("gencolor", fmt.Sprint(hex, minify, unsup), val != fmt.Sprintf("#%08x", hex))
 		// the property's predicate on the real output: same RGBA value
 		if got, ok := colorValue(val); !ok || !sameColor(got, rgbaOfHex(hex)) {
-			st.Fail("color-value-changed", map[string]interface{}{"css": src, "minify": minify, "hex-rgba-unsupported": unsup}, val, fmt.Sprintf("#%08x", hex))
+			failC12(st, "color-value-changed", map[string]interface{}{"css": src, "minify": minify, "hex-rgba-unsupported": unsup}, val, fmt.Sprintf("#%08x", hex))
 		}
 		st.Sample(map[string]interface{}{"css": src, "out": out})
 	}
 	cf.AddCases("gen_cases", "Z * bool * bool * list Z", "check_gen", items)
+}
+
+// ---------------------------------------------------------------------------
+// Failure buffering: hlib keeps at most 20 failures per run.  Replays of known
+// findings (inputs carrying a "scenario" tag) must never crowd out a failure
+// that is not known, so failures are buffered and flushed at the end: every
+// untagged failure first, then at most two per known scenario.
+
+type bufferedFailure struct {
+	what             string
+	input, got, want interface{}
+}
+
+var failureBuffer []bufferedFailure
+
+func failC12(st *Stats, what string, input, got, expect interface{}) {
+	failureBuffer = append(failureBuffer, bufferedFailure{what, input, got, expect})
+	st.Histogram["seen:"+what]++
+}
+
+func scenarioOf(input interface{}) string {
+	if m, ok := input.(map[string]interface{}); ok {
+		if s, ok := m["scenario"].(string); ok {
+			return s
+		}
+	}
+	return ""
+}
+
+func flushFailures(st *Stats) {
+	untagged := 0
+	for _, f := range failureBuffer {
+		if scenarioOf(f.input) == "" {
+			st.Fail(f.what, f.input, f.got, f.want)
+			untagged++
+		}
+	}
+	st.Histogram["untagged-failures"] = untagged
+	per := map[string]int{}
+	for _, f := range failureBuffer {
+		if s := scenarioOf(f.input); s != "" {
+			per[s]++
+			st.Histogram["known-scenario:"+s]++
+			if per[s] <= 1 {
+				st.Fail(f.what, f.input, f.got, f.want)
+			}
+		}
+	}
+	failureBuffer = nil
 }
